@@ -126,6 +126,18 @@ pub fn sem_case_p(prop: &str, text: &str, tts: &[TT], sorting: usize, labels: &[
 }
 
 /// the general form: the definitional answers are given as an `Oracle` (from truth tables or from formulas)
+/// a native object whose diagram store has a listener (`Bdd::set_sender`) that has gone away: every node created from
+/// now on meets a failing send, which is only logged - the object must keep working
+pub fn with_gone_listener(mut adf: Adf) -> Adf {
+    #[cfg(feature = "frontend")]
+    {
+        let (s, r) = crossbeam_channel::unbounded();
+        adf.bdd.set_sender(s);
+        drop(r);
+    }
+    adf
+}
+
 pub fn sem_case_o(prop: &str, text: &str, orc: &Oracle, sorting: usize, labels: &[String], out: &mut Found, st: &mut Stats) {
     sem_case_inner(prop, text, orc, sorting, labels, out, st);
     VARMAP.with(|vm| *vm.borrow_mut() = None);
@@ -180,6 +192,8 @@ fn sem_case_inner(prop: &str, text: &str, orc: &Oracle, sorting: usize, labels: 
             };
             let r = guarded("native", out, st, || Adf::from_parser(&parser).grounded());
             chk("native", r, out);
+            let r = guarded("native+gone-listener", out, st, || with_gone_listener(Adf::from_parser(&parser)).grounded());
+            chk("native+gone-listener", r, out);
             let bd = guarded("biodivine:build", out, st, || BdAdf::from_parser(&parser));
             if let Some(bd) = bd {
                 let r = guarded("biodivine", out, st, || bd.grounded());
@@ -228,6 +242,8 @@ fn sem_case_inner(prop: &str, text: &str, orc: &Oracle, sorting: usize, labels: 
             };
             let r = guarded("native", out, st, || Adf::from_parser(&parser).complete().collect::<Vec<_>>());
             chk("native", r, out);
+            let r = guarded("native+gone-listener", out, st, || with_gone_listener(Adf::from_parser(&parser)).complete().collect::<Vec<_>>());
+            chk("native+gone-listener", r, out);
             let r = guarded("reimported(serde)", out, st, || crate::c14::roundtrip_serde(&Adf::from_parser(&parser)).complete().collect::<Vec<_>>());
             chk("reimported(serde)", r, out);
             let r = guarded("reimported(node list)", out, st, || crate::c14::roundtrip_dblayer(&Adf::from_parser(&parser)).complete().collect::<Vec<_>>());
@@ -258,8 +274,12 @@ fn sem_case_inner(prop: &str, text: &str, orc: &Oracle, sorting: usize, labels: 
             if let Some(r) = r {
                 cmp_models("native.stable_with_prefilter", &r, &want, n, out);
             }
-            for (rl, how) in [("reimported(serde)", 0), ("reimported(node list)", 1)] {
-                let mk = || if how == 0 { crate::c14::roundtrip_serde(&Adf::from_parser(&parser)) } else { crate::c14::roundtrip_dblayer(&Adf::from_parser(&parser)) };
+            for (rl, how) in [("reimported(serde)", 0), ("reimported(node list)", 1), ("native+gone-listener", 2)] {
+                let mk = || match how {
+                    0 => crate::c14::roundtrip_serde(&Adf::from_parser(&parser)),
+                    1 => crate::c14::roundtrip_dblayer(&Adf::from_parser(&parser)),
+                    _ => with_gone_listener(Adf::from_parser(&parser)),
+                };
                 let l = format!("{}.stable", rl);
                 if let Some(r) = guarded(&l, out, st, || mk().stable().collect::<Vec<_>>()) {
                     cmp_models(&l, &r, &want, n, out);
@@ -323,8 +343,8 @@ fn sem_case_inner(prop: &str, text: &str, orc: &Oracle, sorting: usize, labels: 
                 st.nontrivial += 1;
             }
             let bd = guarded("biodivine:build", out, st, || BdAdf::from_parser(&parser));
-            for which in 0..6 {
-                let label = ["native", "hybrid(pre-grounded)", "hybrid_opt(false)", "from_biodivine", "reimported(serde)", "reimported(node list)"][which];
+            for which in 0..7 {
+                let label = ["native", "hybrid(pre-grounded)", "hybrid_opt(false)", "from_biodivine", "reimported(serde)", "reimported(node list)", "native+gone-listener"][which];
                 let mk = || -> Option<Adf> {
                     match which {
                         0 => Some(Adf::from_parser(&parser)),
@@ -332,7 +352,8 @@ fn sem_case_inner(prop: &str, text: &str, orc: &Oracle, sorting: usize, labels: 
                         2 => bd.as_ref().map(|b| b.hybrid_step_opt(false)),
                         3 => bd.as_ref().map(Adf::from_biodivine),
                         4 => Some(crate::c14::roundtrip_serde(&Adf::from_parser(&parser))),
-                        _ => Some(crate::c14::roundtrip_dblayer(&Adf::from_parser(&parser))),
+                        5 => Some(crate::c14::roundtrip_dblayer(&Adf::from_parser(&parser))),
+                        _ => Some(with_gone_listener(Adf::from_parser(&parser))),
                     }
                 };
                 if (1..4).contains(&which) && bd.is_none() {
